@@ -7,10 +7,12 @@ read breaks C15's obligations and not C07's).
 namespace Dawn.Ties.Pickle
 open Dawn
 
-/-- the two functions through which a load reads persisted records: a change to how a record file or the index is read
+/-- the functions through which a load reads persisted records (file, index, the custom unmarshaler of dependency keys and its unescaping): a change to how a record file or the index is read
 must be re-examined against the record-level stream of C15 (file-level faults) -/
 theorem record_loaders_ok :
     Extracted.Pickle.bodyLoadTargetInfo = Expected.Pickle.bodyLoadTargetInfo ∧
-    Extracted.Pickle.bodyLoadIndex = Expected.Pickle.bodyLoadIndex := ⟨rfl, rfl⟩
+    Extracted.Pickle.bodyLoadIndex = Expected.Pickle.bodyLoadIndex ∧
+    Extracted.Pickle.bodyUnescapeLabel = Expected.Pickle.bodyUnescapeLabel ∧
+    Extracted.Pickle.bodyDepStampsUnmarshal = Expected.Pickle.bodyDepStampsUnmarshal := ⟨rfl, rfl, rfl, rfl⟩
 
 end Dawn.Ties.Pickle
